@@ -1,4 +1,28 @@
-/- driver operations of C01 (stub: no model yet) -/
+import EvoModel.Model.Ape
 namespace Evo.Drv.C01
-def handle (_op : String) (_args : List String) : Option String := none
+open Evo
+
+/-- ops:
+  `ape rel n ref-poses… n est-poses…` → `OK core…` | `E_METRICS:len` | `E_METRICS:rel` | `E_GEOMETRY`
+       (core tokens: `S:r` = √r, `A:c:s2:rad|deg` = atan2(√s2, c))
+  `margin n ref… n est…`              → smallest distance of an `is_so3` guard quantity from its threshold
+  `plan <15 option tokens>`           → `step | step | …` or `E_FILTER` -/
+def handle (op : String) (args : List String) : Option String :=
+  match op, args with
+  | "ape", rel :: rest => do
+      let rel ← PoseRelation.ofString? rel
+      let (ref, rest) ← readPoseList rest
+      let (est, _) ← readPoseList rest
+      match ape rel ref est with
+      | .error e => some (showMetricErr e)
+      | .ok l => some ("OK " ++ showCores l)
+  | "margin", rest => do
+      let (ref, rest) ← readPoseList rest
+      let (est, _) ← readPoseList rest
+      some (showRat (((apeRots ref est).map so3Margin).foldl (fun a b => if b < a then b else a) 1))
+  | "plan", rest => do
+      let (o, _) ← readCommonOpts rest
+      some (showPlan (apePlan o))
+  | _, _ => none
+
 end Evo.Drv.C01
